@@ -175,7 +175,7 @@ func NewIVFPQIndex(dim int, distanceKind DistanceKind, nlist int, m int, nbits i
 // Residuals have much less variance, enabling better compression.
 //
 // Parameters:
-//   - vectors: Training vectors (need at least nlist*10)
+//   - vectors: Training vectors (need at least nlist*10 and at least Ksub)
 //
 // Returns:
 //   - error: Returns error if insufficient training data
@@ -186,6 +186,11 @@ func (idx *IVFPQIndex) Train(vectors []VectorNode) error {
 	// Validate sufficient training data
 	if len(vectors) < idx.nlist*10 {
 		return fmt.Errorf("need at least %d vectors for training", idx.nlist*10)
+	}
+
+	// PQ codebooks need one residual per centroid (Ksub per subspace)
+	if len(vectors) < idx.Ksub {
+		return fmt.Errorf("need at least %d vectors for training", idx.Ksub)
 	}
 
 	// Validate dimensionality
